@@ -105,7 +105,8 @@ AllCtx == DOMAIN CtxPath
 
 \* ------------------------------------------------------------------- tokens
 Tok(k, n, a) == [k |-> k, n |-> n, a |-> a]
-AttrClasses == {"ok", "none", "bad"}      \* typical attributes / no attribute at all / unusable values
+\* typical attributes / no attribute at all / every value replaced by a word, a negative number, a large number, 2^31
+AttrClasses == {"ok", "none", "word", "neg", "big", "huge"}
 TextClasses == {"plain", "ent", "cdata", "comment", "pi", "space"}
 
 RepSeq(s, n) == [i \in 1..(Len(s) * n) |-> s[((i - 1) % Len(s)) + 1]]
